@@ -35,6 +35,21 @@ func verifDir() string {
 	return "/verif"
 }
 
+func buildName() string {
+	if props.InnerYields {
+		return "inner"
+	}
+	return ""
+}
+
+// binFor returns the binary that must execute a replay file.
+func binFor(build string) string {
+	if build == "inner" && !props.InnerYields {
+		return os.Args[0] + ".inner"
+	}
+	return os.Args[0]
+}
+
 func replayDir() string {
 	if d := os.Getenv("VERIF_REPLAY_DIR"); d != "" {
 		return d
@@ -60,6 +75,7 @@ type propCfg struct {
 	quickBudget, thoroughBudget time.Duration // wall caps per worker (a cap hit is reported, not hidden)
 	raceShare                   int           // every k-th worker runs the race build (0 = none)
 	freshEvery                  int           // plain workers re-execute every k-th run's tape in a fresh process (0 = never)
+	innerShare                  int           // every k-th worker (if not a race worker) runs the build with yields inside library calls (0 = none)
 	singleProc                  bool          // scheduler-based: GOMAXPROCS=1 per worker
 	requiredProbes              []string
 	rule                        string
@@ -157,6 +173,9 @@ type replayFile struct {
 	Desc     []string `json:"description"`
 	Trace    []string `json:"trace"`
 	OrigTape int      `json:"original_tape_len"`
+	// Build: "inner" when the run was executed by the binary built against the instrumented
+	// copy of the library (yields inside library calls); replay needs the same build.
+	Build string `json:"build,omitempty"`
 	// FreshOnly: the verdict was obtained in a fresh process (one process per execution).
 	FreshOnly bool `json:"fresh_process_verdict,omitempty"`
 	// History: runs (indices under Seed) that must be executed in the same process before the
@@ -286,15 +305,30 @@ func runWorker(args []string) int {
 				small, execs := core.Shrink(tp.Rec, class, oracle, 150, 40*time.Second)
 				fin := execTape(*prop, small, true, env) // description only; the verdict is the child's
 				rf := replayFile{Property: *prop, Seed: *seed, Run: r, Tier: *tier, Class: class, Facts: "fresh-process", Msg: msgOf(out), Event: 0,
-					Digest: "fresh", Tape: small, Desc: fin.Ctx.Desc, Trace: tail(fin.Ctx.L.Lines, 200), OrigTape: len(tp.Rec), FreshOnly: true}
+					Digest: "fresh", Tape: small, Desc: fin.Ctx.Desc, Trace: tail(fin.Ctx.L.Lines, 200), OrigTape: len(tp.Rec), FreshOnly: true, Build: buildName()}
 				path := filepath.Join(replayDir(), fmt.Sprintf("%s-%d-%d-fresh.json", *prop, *seed, r))
 				os.MkdirAll(filepath.Dir(path), 0o755)
 				b, _ := json.MarshalIndent(rf, "", " ")
 				os.WriteFile(path, b, 0o644)
 				res.Violations = append(res.Violations, violationRec{Run: r, Class: class, Facts: rf.Facts, Msg: rf.Msg, Replay: path, Shrunk: len(small), Execs: execs})
 			case code == 0:
-				if d := digestOf(out); d != "" && d != fmt.Sprintf("%016x", rr.Ctx.L.Digest) {
-					res.Violations = append(res.Violations, violationRec{Run: r, Class: *prop + "/run-differs-in-fresh-process", Facts: "fresh-process", Msg: fmt.Sprintf("run %d produces event digest %s in a fresh process but %016x after the earlier runs of this worker: a result depends on what was executed before in the process", r, d, rr.Ctx.L.Digest)})
+				if d := opDigestOf(out); d != "" && d != fmt.Sprintf("%016x", rr.Ctx.L.OpDigest) {
+					// same tape, other results than in a fresh process: something executed earlier in
+					// this worker matters. The replay file carries the worker's earlier run indices.
+					var hist []int
+					for i := 0; i < r; i++ {
+						if sl := i % *W; sl >= *w && sl < *w+*kSlots {
+							hist = append(hist, i)
+						}
+					}
+					msg := fmt.Sprintf("run %d produces operation digest %s in a fresh process but %016x after the %d earlier runs of this worker: a result depends on what was executed before in the process", r, d, rr.Ctx.L.OpDigest, len(hist))
+					rf := replayFile{Property: *prop, Seed: *seed, Run: r, Tier: *tier, Class: *prop + "/run-differs-in-fresh-process", Facts: "fresh-process", Msg: msg,
+						Digest: d, Tape: tp.Rec, OrigTape: len(tp.Rec), History: hist, Build: buildName()}
+					path := filepath.Join(replayDir(), fmt.Sprintf("%s-%d-%d-differs.json", *prop, *seed, r))
+					os.MkdirAll(filepath.Dir(path), 0o755)
+					b, _ := json.MarshalIndent(rf, "", " ")
+					os.WriteFile(path, b, 0o644)
+					res.Violations = append(res.Violations, violationRec{Run: r, Class: rf.Class, Facts: rf.Facts, Msg: msg, Replay: path, Shrunk: len(tp.Rec)})
 				}
 			default:
 				res.Harness = fmt.Sprintf("run %d: fresh-process execution failed (exit %d):\n%s", r, code, lastLines(out, 20))
@@ -339,7 +373,7 @@ func runWorker(args []string) int {
 				}
 			}
 			rf := replayFile{Property: *prop, Seed: *seed, Run: r, Tier: *tier, Class: fin.V.Class, Facts: fin.V.Facts, Msg: fin.V.Msg, Event: fin.V.Event,
-				Digest: fmt.Sprintf("%016x", fin.Ctx.L.Digest), Tape: small, Desc: fin.Ctx.Desc, Trace: tail(fin.Ctx.L.Lines, 400), OrigTape: len(tp.Rec)}
+				Digest: fmt.Sprintf("%016x", fin.Ctx.L.Digest), Tape: small, Desc: fin.Ctx.Desc, Trace: tail(fin.Ctx.L.Lines, 400), OrigTape: len(tp.Rec), Build: buildName()}
 			path := filepath.Join(replayDir(), fmt.Sprintf("%s-%d-%d.json", *prop, *seed, r))
 			os.MkdirAll(filepath.Dir(path), 0o755)
 			b, _ := json.MarshalIndent(rf, "", " ")
@@ -400,6 +434,36 @@ func runReplay(args []string) int {
 	if strings.HasSuffix(rf.Class, "/race") {
 		return replayRace(&rf, *file)
 	}
+	if strings.HasSuffix(rf.Class, "/run-differs-in-fresh-process") {
+		bin := binFor(rf.Build)
+		_, outSeq := execSeqProc(bin, rf.Property, rf.Tier, rf.Seed, rf.History, rf.Tape, true)
+		_, outFresh, _ := execTapeProc(bin, rf.Property, rf.Tier, rf.Tape, true)
+		a, b := opDigestOf(outSeq), opDigestOf(outFresh)
+		if a == "" || b == "" {
+			fmt.Printf("REPLAY-DIVERGED: could not execute the tape (after history: %q, fresh: %q)\n", lastLines(outSeq, 3), lastLines(outFresh, 3))
+			return 2
+		}
+		if a != b {
+			fmt.Printf("%s: the tape gives operation digest %s after the %d history runs and %s in a fresh process\n", rf.Class, a, len(rf.History), b)
+			fmt.Printf("VIOLATION property=%s replay=%s\n", rf.Property, *file)
+			return 1
+		}
+		fmt.Printf("REPLAY-CLEAN property=%s file=%s: same results with and without the history on this tree\n", rf.Property, *file)
+		return 3
+	}
+	if b := binFor(rf.Build); b != os.Args[0] {
+		if _, err := os.Stat(b); err != nil {
+			fmt.Printf("REPLAY-DIVERGED: %s not built (run ./check %s quick once, or ./check build)\n", b, rf.Property)
+			return 2
+		}
+		c := exec.Command(b, os.Args[1:]...)
+		c.Stdout, c.Stderr, c.Env = os.Stdout, os.Stderr, os.Environ()
+		c.Run()
+		if c.ProcessState != nil {
+			return c.ProcessState.ExitCode()
+		}
+		return 2
+	}
 	env := map[string]string{"tier": rf.Tier, "self": os.Args[0], "race": strconv.FormatBool(raceEnabled)}
 	if len(rf.History) > 0 {
 		debug.SetGCPercent(-1) // process state (e.g. sync.Pool contents) must not depend on GC timing
@@ -452,6 +516,7 @@ func runCheck(args []string) int {
 	workers := fs.Int("workers", 0, "")
 	runsFlag := fs.Int("runs", 0, "")
 	raceBin := fs.String("race-bin", "", "")
+	innerBin := fs.String("inner-bin", "", "")
 	noEvidence := fs.Bool("no-evidence", false, "")
 	fs.Parse(args)
 	cfg := cfgs[*prop]
@@ -514,8 +579,13 @@ func runCheck(args []string) int {
 		kOf[w] = plainWeight
 		if isRace(w) {
 			kOf[w] = 1
+		} else if cfg.innerShare > 0 && *innerBin != "" && w%cfg.innerShare == 0 {
+			kOf[w] = 2
 		}
 		slots += kOf[w]
+	}
+	isInner := func(w int) bool {
+		return cfg.innerShare > 0 && *innerBin != "" && !isRace(w) && w%cfg.innerShare == 0
 	}
 	for w := 0; w < W; w++ {
 		bin := os.Args[0]
@@ -523,6 +593,8 @@ func runCheck(args []string) int {
 		if isRace(w) {
 			bin = *raceBin
 			race = true
+		} else if isInner(w) {
+			bin = *innerBin
 		}
 		out := filepath.Join(tmp, fmt.Sprintf("w%d.json", w))
 		cmd := exec.Command(bin, "worker", "-prop", *prop, "-seed", strconv.FormatUint(seed, 10), "-w", strconv.Itoa(firstSlot[w]), "-k", strconv.Itoa(kOf[w]), "-W", strconv.Itoa(slots), "-n", strconv.Itoa(N), "-tier", *tier, "-out", out, "-budget", budget.String(), "-fresh-every", strconv.Itoa(cfg.freshEvery))
@@ -732,6 +804,7 @@ func runCheck(args []string) int {
 			"reach_probes":          probes,
 			"other_counters":        other,
 			"race_detector_runs":    raceRuns,
+			"inner_yield_build":     fmt.Sprintf("%d runs by the binary built against an instrumented copy of the library (a yield hook at every function entry and loop iteration, so that tasks are preempted inside library calls)", total.Counters["probe_inner_yield_runs"]),
 			"determinism_selfcheck": fmt.Sprintf("%d runs re-executed from their recorded tape inside the batch, digests equal", total.SelfChecks),
 			"batch_digest":          fmt.Sprintf("%016x", total.Digest),
 			"budget_cap_hit":        total.BudgetHit,
@@ -864,6 +937,7 @@ func runExecSeq() int {
 	if res.Harness != nil {
 		return 2
 	}
+	fmt.Printf("OPDIGEST %016x\n", res.Ctx.L.OpDigest)
 	if res.V != nil {
 		fmt.Printf("CLASS %s\n", res.V.Class)
 		return 1
@@ -871,9 +945,9 @@ func runExecSeq() int {
 	return 0
 }
 
-func execSeqProc(prop, tier string, seed uint64, hist []int, tape []uint32, single bool) (int, string) {
+func execSeqProc(bin, prop, tier string, seed uint64, hist []int, tape []uint32, single bool) (int, string) {
 	req, _ := json.Marshal(execSeqReq{Property: prop, Tier: tier, Seed: seed, History: hist, Tape: tape})
-	cmd := exec.Command(os.Args[0], "exec-seq")
+	cmd := exec.Command(bin, "exec-seq")
 	cmd.Stdin = bytes.NewReader(req)
 	if single {
 		cmd.Env = append(os.Environ(), "GOMAXPROCS=1")
@@ -907,7 +981,7 @@ func historyConfirm(prop, tier string, seed uint64, v *violationRec, owns func(r
 	}
 	class := "CLASS " + v.Class
 	test := func(h []int) bool {
-		code, out := execSeqProc(prop, tier, seed, h, rf.Tape, single)
+		code, out := execSeqProc(binFor(rf.Build), prop, tier, seed, h, rf.Tape, single)
 		return code == 1 && strings.Contains(out, class)
 	}
 	if !test(hist) {
@@ -1001,6 +1075,7 @@ func runExecTape() int {
 	b, _ := json.Marshal(res.Ctx.T.Rec)
 	fmt.Printf("TAPE %s\n", b)
 	fmt.Printf("DIGEST %016x\n", res.Ctx.L.Digest)
+	fmt.Printf("OPDIGEST %016x\n", res.Ctx.L.OpDigest)
 	if res.V != nil {
 		fmt.Printf("CLASS %s\n", res.V.Class)
 		fmt.Printf("MSG %s\n", strings.ReplaceAll(res.V.Msg, "\n", " "))
@@ -1017,9 +1092,10 @@ func lineOf(out, prefix string) string {
 	}
 	return ""
 }
-func classOf(out string) string  { return lineOf(out, "CLASS ") }
-func msgOf(out string) string    { return lineOf(out, "MSG ") }
-func digestOf(out string) string { return lineOf(out, "DIGEST ") }
+func classOf(out string) string    { return lineOf(out, "CLASS ") }
+func msgOf(out string) string      { return lineOf(out, "MSG ") }
+func digestOf(out string) string   { return lineOf(out, "DIGEST ") }
+func opDigestOf(out string) string { return lineOf(out, "OPDIGEST ") }
 
 // runTriage prints one minimised example per (class, facts) among n runs (development aid).
 func runTriage(args []string) int {
@@ -1110,6 +1186,16 @@ func main() {
 		os.Exit(runExecTape())
 	case "exec-seq":
 		os.Exit(runExecSeq())
+	case "instrument":
+		fs := flag.NewFlagSet("instrument", flag.ExitOnError)
+		repo := fs.String("repo", "/repo", "")
+		out := fs.String("out", "", "")
+		fs.Parse(os.Args[2:])
+		if err := runInstrument(*repo, *out); err != nil {
+			fmt.Fprintln(os.Stderr, "vsim instrument:", err)
+			os.Exit(2)
+		}
+		os.Exit(0)
 	case "corpus":
 		fs := flag.NewFlagSet("corpus", flag.ExitOnError)
 		repo := fs.String("repo", "/repo", "")
